@@ -331,7 +331,17 @@ class RaisingIterable:
     """marker: the caller's iterable raises at this position"""
 
 
-def build_point(t, tf):
+_SUBCLASS = {}
+
+
+def point_subclass(tf):
+    """a user subclass of Point (applications attach behaviour to their points)"""
+    if tf not in _SUBCLASS:
+        _SUBCLASS[tf] = type("SensorPoint", (tf.Point,), {"describe": lambda self: f"{self.measurement}@{self.time}"})
+    return _SUBCLASS[tf]
+
+
+def build_point(t, tf, cls=None):
     if t == "!":
         return NotAPoint()
     if t == "!m":
@@ -345,12 +355,12 @@ def build_point(t, tf):
     fields = {unhx(k): parse_num(v) for k, v in t[4][1:]}
     if t[1].startswith("now:"):
         # a point without a time (only a bare Point() has none): the database stamps it on insert
-        p = tf.Point()
+        p = (cls or tf.Point)()
         p.measurement = unhx(t[2])
         p.tags = tags
         p.fields = fields
         return p
-    return tf.Point(
+    return (cls or tf.Point)(
         time=parse_time_atom(t[1]), measurement=unhx(t[2]), tags=tags, fields=fields
     )
 
